@@ -77,6 +77,11 @@ UnpackWords == Mode = "string" => LET o == StringOutcome(items) IN
 (* ---- export for replay into the real assembler ---- *)
 ExportTriple == (Mode = "triple" /\ Len(chars) = 3) =>
                   PrintT(ToJson([m |-> "t", c |-> <<R50[chars[1] + 1], R50[chars[2] + 1], R50[chars[3] + 1]>>, w |-> acc]))
+(* every single raw code <c>, 0..63, as a string of its own (exported once, with the empty string): the program
+   't: .repeat n { .rad50 <<. - t>/2 + c> }' means the strings <c>, <c+1>, ... one after the other *)
+ExportCodes == (Mode = "string" /\ items = <<>>) =>
+                  PrintT(ToJson([m |-> "codes",
+                                 outcome |-> [c \in 1..64 |-> StringOutcome(<< [k |-> "code", v |-> c - 1, lower |-> FALSE] >>)]]))
 ExportString == (Mode = "string") =>
                   LET o == StringOutcome(items) IN
                   PrintT(ToJson([m |-> "s",
